@@ -120,6 +120,17 @@ PROPS = {
         "level_note": "trusted: Clock.tla, Civil.tla, TLC, harness logging; sampled, not exhaustive (the space of instants x offsets is ~10^21)",
         "technique": "TLA+ clock model checked with TLC + trace validation of seeded and boundary-grid calls",
     },
+    "C13": {
+        "title": "containers list exactly their parts: year, half, season, month, day, hour",
+        "mc": {"quick": [{"module": "MC_Weeks", "cfg": "MC_Weeks.cfg", "workers": 2}, {"module": "MC_MonthClock", "cfg": "MC_MonthClock.cfg", "workers": 4}]},
+        "rule": "civil years 18 fixed (incl. 1582) + 380 seeded (quick) / all 9,999 (thorough) with all their months; lunar years 16 fixed (incl. the reform years) + 80 seeded / all 0..9999 with all their months; hour slots of 300 / 5,000 seeded days; sexagenary months of 43 / 500 seeded years. "
+                "Non-trivial: Februaries, Decembers, October 1582, leap years, leap months and first/last lunar months",
+        "exhaustive": {"quick": False, "thorough": False},
+        "assumptions": ["lunar month first days/lengths and Jie days are the implementation's own (C03, C06)"],
+        "level_text": "TLC checks the week/month case analysis the expected listings rely on (MC_Weeks, MC_MonthClock) and validates one List event per container of the real code against Containers.tla: a civil year's halves, seasons and months and their nesting, a month's existing dates in order (October 1582: 1-4, 15-31), day-of-year and day counts agreeing with the lists, a lunar year's 12/13 labels, a lunar month's days 1..len on consecutive civil days, the 13 resp. 12 hour slots, a sexagenary month's days from its Jie day to the day before the next",
+        "level_note": "trusted: Containers.tla / Civil.tla / LunarCal.tla, TLC, harness logging; thorough enumerates all civil and lunar years and months but samples days and sexagenary months",
+        "technique": "TLA+ listing operators + trace validation of one List event per container",
+    },
     "C15": {
         "title": "term-anchored day series: Nines, Dog days, Plum rains, pentads, ruling stems",
         "mc": {"quick": [{"module": "MC_Series", "cfg": "MC_Series.cfg", "workers": 4}]},
